@@ -16,7 +16,7 @@ object that existed before the step, and the bytes of its extent, are unchanged.
 from . import model as M, typegen
 from .core import exc_sig, quarantined
 
-KINDS = ["index_oob", "index_oob", "array_shape", "array_shape", "array_dims", "string_long", "string_long", "items_large", "items_large", "struct_partial", "union_nonmember", "union_nonmember", "ctx_mismatch", "offset_nobuf"]
+KINDS = ["index_oob", "index_oob", "array_shape", "array_shape", "array_dims", "scalar_sequence", "array_nested_deeper", "string_long", "string_long", "items_large", "items_large", "struct_partial", "union_nonmember", "union_nonmember", "ctx_mismatch", "offset_nobuf"]
 
 
 def gen(gs, w):
@@ -106,6 +106,29 @@ def gen_array_shape(gs, w):
     # the misfitting value as plain data, or as an xobject of the same array class (which may
     # happen to have the same byte size although its shape differs)
     return {"obj": o.k, "path": p, "value": {"l": items, "shape": new}, "as_obj": rng.random() < 0.35, "via": gs._via(o)}
+
+
+def gen_scalar_sequence(gs, w):
+    """A sequence assigned to a scalar field or item: a value too large for the space of a number."""
+    rng = gs.rng
+    got = gs._pick_path(w, lambda s, t, n, p: s[t]["k"] == "sc")
+    if got is None:
+        return None
+    o, p, t, n = got
+    k = rng.choice([2, 3, 5])
+    return {"obj": o.k, "path": p, "values": [M.gen_scalar(rng, w.schema[t]["t"]) for _ in range(k)], "as_nd": rng.random() < 0.4, "via": gs._via(o)}
+
+
+def gen_array_nested_deeper(gs, w):
+    """A list of lists whose outer length matches an array of numbers with fewer axes."""
+    rng = gs.rng
+    got = gs._pick_path(w, lambda s, t, n, p: s[t]["k"] == "array" and s[s[t]["item"]]["k"] == "sc" and len(n.items) > 0)
+    if got is None:
+        return None
+    o, p, t, n = got
+    it = w.schema[w.schema[t]["item"]]["t"]
+    inner = rng.choice([2, 3])
+    return {"obj": o.k, "path": p, "inner": inner, "values": [M.gen_scalar(rng, it) for _ in range(len(n.items) * inner)], "via": gs._via(o)}
 
 
 def gen_array_dims(gs, w):
@@ -365,6 +388,38 @@ def run(step):
                         raise Skip()
                     if not any(a.cap is not None and len(b.text.encode()) + 1 > a.cap for a, b in zip(node.items, vnode.items)):
                         raise Skip()
+                holder = o.walk(path[:-1], start)
+                last = path[-1]
+
+                def call():
+                    if isinstance(last, str):
+                        setattr(holder, last, py)
+                    else:
+                        holder[tuple(last) if len(last) > 1 else last[0]] = py
+
+            elif kind == "scalar_sequence":
+                if w.schema[t]["k"] != "sc" or not path:
+                    raise Skip()
+                import numpy as np
+
+                vals = [M.scalar_py(w.schema[t]["t"], v) for v in op["values"]]
+                py = np.array(vals, dtype=typegen.SC_DTYPE[w.schema[t]["t"]]) if op.get("as_nd") else vals
+                holder = o.walk(path[:-1], start)
+                last = path[-1]
+
+                def call():
+                    if isinstance(last, str):
+                        setattr(holder, last, py)
+                    else:
+                        holder[tuple(last) if len(last) > 1 else last[0]] = py
+
+            elif kind == "array_nested_deeper":
+                if w.schema[t]["k"] != "array" or not path or w.schema[w.schema[t]["item"]]["k"] != "sc" or len(op["values"]) != len(node.items) * op["inner"]:
+                    raise Skip()
+                it = w.schema[w.schema[t]["item"]]["t"]
+                flat = [M.scalar_py(it, v) for v in op["values"]]
+                groups = [flat[i * op["inner"] : (i + 1) * op["inner"]] for i in range(len(node.items))]
+                py = M.nest(groups, node.shape)  # the array's own shape, each "item" a list
                 holder = o.walk(path[:-1], start)
                 last = path[-1]
 
